@@ -694,8 +694,58 @@ class State:
         return None
 
     # -------------------------------------------------------------- builtins
+    def int_builtin(self, p, args):
+        """integer intrinsics on literal receivers (`x.ilog2()`, `x.trailing_zeros()`, ...): computed"""
+        m = re.match(r'^std::num::<impl ([ui])(\d+|size)>::(\w+)$', p)
+        if not m or not args or any(not (isinstance(x, tuple) and x[0] == 'lit' and isinstance(x[1], int) and not isinstance(x[1], bool))
+                                    for x in args):
+            return NOTBUILTIN
+        signed, width, name = m.group(1) == 'i', (64 if m.group(2) == 'size' else int(m.group(2))), m.group(3)
+        ty = m.group(1) + m.group(2)
+        x = args[0][1]
+        y = args[1][1] if len(args) > 1 else None
+        lo, hi = (-(1 << (width - 1)), (1 << (width - 1)) - 1) if signed else (0, (1 << width) - 1)
+
+        def opt(v):
+            return some(lit(v, ty)) if v is not None and lo <= v <= hi else NONE
+        if name == 'ilog2' and x > 0:
+            return lit(x.bit_length() - 1, 'u32')
+        if name == 'checked_ilog2':
+            return some(lit(x.bit_length() - 1, 'u32')) if x > 0 else NONE
+        if name == 'trailing_zeros':
+            return lit(width if x == 0 else (x & -x).bit_length() - 1, 'u32')
+        if name == 'leading_zeros' and x >= 0:
+            return lit(width - x.bit_length(), 'u32')
+        if name == 'count_ones' and x >= 0:
+            return lit(bin(x).count('1'), 'u32')
+        if name == 'is_power_of_two':
+            return lit(x > 0 and x & (x - 1) == 0, 'bool')
+        if name == 'next_power_of_two' and x >= 0:
+            return lit(1 if x <= 1 else 1 << (x - 1).bit_length(), ty)
+        if y is not None:
+            if name == 'pow':
+                return lit(x ** y, ty) if lo <= x ** y <= hi else NOTBUILTIN
+            if name in ('min', 'max'):
+                return lit(min(x, y) if name == 'min' else max(x, y), ty)
+            if name in ('checked_add', 'checked_sub', 'checked_mul'):
+                return opt({'checked_add': x + y, 'checked_sub': x - y, 'checked_mul': x * y}[name])
+            if name in ('saturating_add', 'saturating_sub', 'saturating_mul'):
+                v = {'saturating_add': x + y, 'saturating_sub': x - y, 'saturating_mul': x * y}[name]
+                return lit(max(lo, min(hi, v)), ty)
+            if name in ('wrapping_add', 'wrapping_sub', 'wrapping_mul') and not signed:
+                v = {'wrapping_add': x + y, 'wrapping_sub': x - y, 'wrapping_mul': x * y}[name]
+                return lit(v & hi, ty)
+            if name in ('checked_shl', 'checked_shr'):
+                if not 0 <= y < width:
+                    return NONE
+                return opt((x << y) & hi if name == 'checked_shl' else x >> y)
+        return NOTBUILTIN
+
     def builtin(self, p, args, node):
         a = args
+        r = self.int_builtin(p, [self.refine(x) for x in args]) if p.startswith('std::num::<impl ') else NOTBUILTIN
+        if r is not NOTBUILTIN:
+            return r
         last = p.split('::')[-1]
         recv = self.refine(a[0]) if a else None
         is_opt = p.startswith('std::option::Option::') or p.startswith('core::option::Option::')
@@ -1525,10 +1575,19 @@ class State:
         finally:
             self.loops.pop()
             self.effect('loop_end', 'for', (src,), e)
+        exited = any(x['kind'] == 'loop_exit' and x['args'] == (src,) and x['callee'] in ('break', 'continue-outer')
+                     for x in self.trace[-40:])
         for vid, lv in lvars.items():
             upd = env.get(vid)
             self.effect('loop_update', lv[2][2][1], (lv, upd), e)
-            env[vid] = ('call', 'loop_result', (lv, upd))
+            if upd == lv:
+                # no iteration of this shape touches it: it still has the value it had before the loop
+                env[vid] = lv[2][1]
+            elif exited and upd[0] == 'lit':
+                # set by the iteration that left the loop: that was the last one
+                env[vid] = upd
+            else:
+                env[vid] = ('call', 'loop_result', (lv, upd))
             snapshot[vid] = env[vid]
         for (vid, fname), lv in flvars.items():
             cur = env.get(vid)
